@@ -55,11 +55,20 @@ func (a *Attestation) HashTreeRoot(spec *common.Spec, hFn tree.HashFn) common.Ro
 type Attestations []Attestation
 
 func (a *Attestations) Deserialize(spec *common.Spec, dr *codec.DecodingReader) error {
-	return dr.List(func() codec.Deserializable {
+	start, scope := len(*a), dr.Scope()
+	if err := dr.List(func() codec.Deserializable {
 		i := len(*a)
 		*a = append(*a, Attestation{})
 		return spec.Wrap(&((*a)[i]))
-	}, 0, uint64(spec.MAX_ATTESTATIONS))
+	}, 0, uint64(spec.MAX_ATTESTATIONS)); err != nil {
+		return err
+	}
+	// dr.List does not decode an element whose span is empty, it leaves a zero value in place.
+	// An attestation is never empty: then the decoded list does not account for the given bytes.
+	if got := (*a)[start:].ByteLength(spec); got != scope {
+		return fmt.Errorf("list of %d bytes decodes to elements of %d bytes: element with an empty span", scope, got)
+	}
+	return nil
 }
 
 func (a Attestations) Serialize(spec *common.Spec, w *codec.EncodingWriter) error {
